@@ -317,8 +317,12 @@ func (g *genCtx) genPluginStep(id string) *Step {
 	if g.pct(g.prof.PDisabled, "enabled") {
 		s.Enabled = g.genBool()
 		if g.pct(g.prof.PLiteralFalse, "enabled_literal_false") {
-			// a YAML scalar that the bool schema reads as false (true spellings are avoided, see DESIGN §3.1)
+			// a YAML scalar that the bool schema reads as false
 			s.Enabled = Lit(rapid.SampledFrom([]string{"false", "no", "off", "n", "0", "disable", "disabled", "No", "OFF"}).Draw(g.t, "false_spelling"))
+		} else if g.pct(15, "enabled_literal_true") {
+			// ... or as true: a literal reaches the step as the scalar's text, and must mean what it says
+			// (it used to disable the step: defect D21)
+			s.Enabled = Lit(rapid.SampledFrom([]string{"true", "yes", "on", "y", "1", "enable", "enabled", "True", "ON"}).Draw(g.t, "true_spelling"))
 		}
 	}
 	if g.prof.Tags && len(g.prior) > 0 {
